@@ -248,45 +248,78 @@ def rule_order(ctx, rep):
                      '__lt__ is not "self.start < other.start" (got %r for a.start %s b.start): equal-start candidates '
                      'would no longer keep token-list order' % (got, '<' if a < b else '=' if a == b else '>'),
                      loc(unit, lt.node))
+    # find_tokens: decided by interpreting it over two abstract token types whose find() results carry
+    # chosen start offsets; the result must be the candidates in (token-list order, match order), stably
+    # sorted by start - i.e. equal-start candidates keep token-list order
     ft = model.func('span_tokenizer.find_tokens')
-    # return sorted(<list>) with no key / reverse; list filled by append in nested for loops
-    rets = [n for n in walk_function(ft.node) if isinstance(n, ast.Return)]
-    ok_sort = False
-    listname = None
-    for r in rets:
-        v = r.value
-        if isinstance(v, ast.Call) and isinstance(v.func, ast.Name) and v.func.id == 'sorted' and not v.keywords \
-                and len(v.args) == 1 and isinstance(v.args[0], ast.Name):
-            ok_sort = True
-            listname = v.args[0].id
-    if not ok_sort:
-        # alternative idiom: tokens.sort(); return tokens
-        for n in walk_function(ft.node):
-            if isinstance(n, ast.Call) and isinstance(n.func, ast.Attribute) and n.func.attr == 'sort' and not n.keywords \
-                    and isinstance(n.func.value, ast.Name):
-                ok_sort = True
-                listname = n.func.value.id
-    rep.obligation('R-ORDER', ok_sort, {'find_tokens': 'returns a stable sort of the candidate list by __lt__'})
-    if not ok_sort:
-        rep.find('R-ORDER', 'span_tokenizer.find_tokens', 'stable-sort',
-                 'find_tokens does not return sorted(<candidates>) without key/reverse', loc(unit, ft.node))
-    # collection order: outer loop over the token_types parameter, inner over token_type.find(string), append
-    ok_coll = False
-    params = ft.params()
-    for n in walk_function(ft.node):
-        if isinstance(n, ast.For) and isinstance(n.iter, ast.Name) and n.iter.id == params[1]:
-            for m in ast.walk(n):
-                if isinstance(m, ast.For) and m is not n and isinstance(m.iter, ast.Call) \
-                        and isinstance(m.iter.func, ast.Attribute) and m.iter.func.attr == 'find':
-                    for c in ast.walk(m):
-                        if isinstance(c, ast.Call) and isinstance(c.func, ast.Attribute) and c.func.attr == 'append' \
-                                and isinstance(c.func.value, ast.Name) and c.func.value.id == listname:
-                            ok_coll = True
-    rep.obligation('R-ORDER', ok_coll, {'find_tokens': 'candidates appended in token-list order, then match order'})
-    if not ok_coll:
-        rep.find('R-ORDER', 'span_tokenizer.find_tokens', 'collection-order',
-                 'candidates are not collected by "for type in token_types: for m in type.find(string): append"',
-                 loc(unit, ft.node))
+    unit_ft = model.unit_of(ft)
+    scenarios = [
+        ([[5, 9], [5, 2]], 'equal start across types'),
+        ([[1], [1]], 'same start, two types'),
+        ([[7, 3], [3, 7]], 'equal starts both ways'),
+        ([[4, 4], []], 'one type only'),
+        ([[], [6, 2]], 'first type finds nothing'),
+    ]
+    for starts, what in scenarios:
+        it = Interp(model, loop_bound=6)
+        it.reset_run(Oracle())
+        types = [MockSpanType(i, st) for i, st in enumerate(starts)]
+        problems = None
+        try:
+            got = it.call_function(ft, [Poison('string') if False else Unknown('string'), types, Unknown('fallback')], {})
+            seq = [(t.attrs.get('cls').i if isinstance(t.attrs.get('cls'), MockSpanType) else '?',
+                    t.attrs.get('start')) for t in got] if isinstance(got, list) else None
+        except Raised as r:
+            seq, problems = None, 'raises %s' % r.exc.kind
+        coll = [(i, s0) for i, st in enumerate(starts) for s0 in st]
+        want = sorted(coll, key=lambda p_: p_[1])       # Python's sort is stable
+        ok = seq == want
+        rep.obligation('R-ORDER', ok, {'find_tokens scenario': what, 'starts per type': starts,
+                                       'result (type, start)': seq, 'expected': want})
+        if not ok:
+            key = 'stable-sort' if seq is not None and sorted(seq) == sorted(want) else 'collection-order'
+            rep.find('R-ORDER', 'span_tokenizer.find_tokens', key,
+                     'find_tokens over two token types whose find() yields matches starting at %s returns %s; candidates '
+                     'collected in token-list order and stably sorted by start would be %s%s'
+                     % (starts, seq, want, (' (%s)' % problems) if problems else ''), loc(unit_ft, ft.node))
+
+
+class MockSpanType(AbstractValue):
+    """An abstract span token type: find() yields matches with the given start offsets."""
+
+    def __init__(self, i, starts):
+        self.i = i
+        self.starts = starts
+        self.prov = ('mock-span-type', i)
+
+    def abs_getattr(self, interp, name):
+        if name == 'find':
+            from ..domains import _AbsBound
+            return _AbsBound(self, name)
+        return Unknown('type%d.%s' % (self.i, name))
+
+    def abs_method(self, interp, name, args, kwargs):
+        if name == 'find':
+            return [MockSpanMatch(self, s0) for s0 in self.starts]
+        return Unknown('type%d.%s()' % (self.i, name))
+
+
+class MockSpanMatch(AbstractValue):
+    def __init__(self, owner, start):
+        self.owner = owner
+        self.s0 = start
+
+    def abs_getattr(self, interp, name):
+        from ..domains import _AbsBound
+        return _AbsBound(self, name)
+
+    def abs_method(self, interp, name, args, kwargs):
+        n = args[0] if args else 0
+        if name == 'start':
+            return self.s0 if n == 0 else Unknown('start(%r)' % (n,))
+        if name == 'end':
+            return self.s0 + 1 if n == 0 else Unknown('end(%r)' % (n,))
+        return Unknown('match.%s' % name)
 
 
 def _tile_run(model, ranks):
